@@ -1,5 +1,5 @@
 (* Properties/C15.v — native/core names resolve by registration only, stably; 'node:' means core. *)
-From GN Require Import Common.Base Model.Paths Model.Require Proofs.RequireInv Proofs.RequireExtra.
+From GN Require Import Common.Base Model.Paths Model.Require Proofs.RequireInv Proofs.RequireExtra Proofs.ResolveProofs Gen.RequireGlue Model.ResolveSrc.
 Open Scope Z_scope.
 
 (* In every state reachable by any history of requires — prefixed, unprefixed and file requests, including a relative
@@ -45,6 +45,10 @@ Proof.
   destruct (zs_eqb name (node_prefix ++ name)); reflexivity.
 Qed.
 Print Assumptions C15_node_prefix_alias.
+
+Theorem C15_source_tie : Gen.RequireGlue.resolve_src = Model.ResolveSrc.expected_resolve_src.
+Proof. exact resolve_source_unchanged. Qed.
+Print Assumptions C15_source_tie.
 
 Example C15_nonvacuous :
   let util := [117;116;105;108] in
